@@ -1,11 +1,168 @@
-(* C05 — exported theorems only. *)
+(* C05 — exported theorems only: each is closed by [exact] and followed by Print Assumptions. *)
 From Coq Require Import List ZArith Bool.
-From Verif Require Import C05.Model C05.Spec C05.Proofs.
+From Verif Require Import C05.Model C05.Spec C05.Codec C05.Trace
+     C05.Proofs_base C05.Proofs_ledger C05.Proofs_index C05.Proofs_pure C05.Proofs_view
+     C05.Proofs_codec.
 Import ListNotations.
 Open Scope Z_scope.
+
+(* ---- ledger: for ALL histories of cache operations with non-negative pod requests ---- *)
+
+(* what a reservation reports as allocated is never negative and never more than what the
+   pods assigned to it request in its restricted dimensions *)
+Theorem c05_ledger_bounds : forall l,
+  all_along (fun _ o => op_nonneg o) init_cache l = true ->
+  forall i, In i (infos (crun init_cache l)) ->
+  forall k, 0 <= getv k (r_allocated i) <= held i k.
+Proof. exact ledger_bounds_all_histories. Qed.
+Print Assumptions c05_ledger_bounds.
+
+(* ... and equals it exactly, provided no update adds a restricted dimension in which the
+   already assigned pods hold requests (hypothesis no_grow_op, evaluated along the run) *)
+Theorem c05_ledger : forall l,
+  all_along (fun _ o => op_nonneg o) init_cache l = true ->
+  all_along no_grow_op init_cache l = true ->
+  forall i, In i (infos (crun init_cache l)) ->
+  forall k, getv k (r_allocated i) = held i k.
+Proof. exact ledger_exact_no_growth. Qed.
+Print Assumptions c05_ledger.
+
+(* without that hypothesis the sentence is false of the code as it is (finding 1) *)
+Theorem c05_ledger_refuted :
+  all_along (fun _ o => op_nonneg o) init_cache witness_grow = true
+  /\ exists i, In i (infos (crun init_cache witness_grow))
+               /\ getv 4 (r_allocated i) = 0 /\ held i 4 = 7.
+Proof. exact ledger_exact_refuted. Qed.
+Print Assumptions c05_ledger_refuted.
+
+(* ---- restricted fit, for ALL (reservation state, request, preemptible) triples ---- *)
+
+Theorem c05_restricted_fit : forall i req pre,
+  fits_reservation i req pre = [] <-> fits_spec i req pre.
+Proof. exact restricted_fit. Qed.
+Print Assumptions c05_restricted_fit.
+
+Theorem c05_fit_dispatch : forall i req pre,
+  fits_node_and_reservation i req pre
+  = if s_policy (r_spec i) =? 2 then fits_reservation i req pre else [].
+Proof. exact dispatch_policy. Qed.
+Print Assumptions c05_fit_dispatch.
+
+Theorem c05_no_overalloc : forall i u req pre,
+  fits_reservation i req pre = [] ->
+  (forall k, getv k pre = 0) ->
+  has_assigned u i = false ->
+  let i' := add_assigned i u req in
+  within_after i req (r_allocated i') (n_assigned i').
+Proof. exact no_overalloc. Qed.
+Print Assumptions c05_no_overalloc.
+
+(* ---- allocate-once ---- *)
 
 Theorem c05_allocate_once : forall i,
   s_once (r_spec i) = true -> r_assigned i <> [] ->
   is_matchable i = false /\ nominate_gate i = false.
 Proof. exact allocate_once_gate. Qed.
 Print Assumptions c05_allocate_once.
+
+(* ---- owners ---- *)
+
+Theorem c05_owner : forall ws p, match_owners ws p = true <-> owners_spec ws p.
+Proof. exact owner_match. Qed.
+Print Assumptions c05_owner.
+
+Theorem c05_owner_none : forall p, match_owners [] p = false.
+Proof. exact owner_none. Qed.
+Print Assumptions c05_owner_none.
+
+(* ---- per-node indexes: for ALL histories that keep node names stable ---- *)
+
+Theorem c05_index : forall l,
+  all_along node_stable_op init_cache l = true ->
+  index_sound (crun init_cache l) /\ index_complete (crun init_cache l)
+  /\ nomination_ok (crun init_cache l).
+Proof. exact index_invariants_stable_histories. Qed.
+Print Assumptions c05_index.
+
+(* the same from a hypothesis on the event list alone: every event of a reservation carries
+   one and the same node name *)
+Theorem c05_index_by_event_nodes : forall nodeof l,
+  Forall (carries nodeof) l ->
+  index_sound (crun init_cache l) /\ index_complete (crun init_cache l)
+  /\ nomination_ok (crun init_cache l).
+Proof. exact index_invariants_by_event_nodes. Qed.
+Print Assumptions c05_index_by_event_nodes.
+
+Theorem c05_index_needs_stable_nodes :
+  all_along node_stable_op init_cache witness_unstable = false
+  /\ idx_mem 1 1 (on_node (crun init_cache witness_unstable)) = true
+  /\ find_info 1 (infos (crun init_cache witness_unstable)) = None.
+Proof. exact index_sound_needs_stable_nodes. Qed.
+Print Assumptions c05_index_needs_stable_nodes.
+
+(* ---- the decision procedure that judges the implementation, on the model's own trace:
+        every view dumped after every entry point of every history passes ---- *)
+
+Theorem c05_trace_weak : forall hs,
+  hist_nonneg hs = true ->
+  all_zero (codes step_code_weak hs (flags_of hs) (views_of hs)) = true.
+Proof. exact trace_weak. Qed.
+Print Assumptions c05_trace_weak.
+
+Theorem c05_trace : forall hs,
+  hist_nonneg hs = true -> hist_no_grow init_cache hs = true ->
+  all_zero (codes step_code hs (flags_of hs) (views_of hs)) = true.
+Proof. exact trace_full. Qed.
+Print Assumptions c05_trace.
+
+(* ---- the same through the wire codec: the functions the extracted runner executes
+        (Extract.v: run_case / prop_case of each stream), composed, give 0 ---- *)
+
+Theorem c05_model_passes_own_check : forall inp,
+  hist_nonneg (dec_history inp) = true ->
+  hist_no_grow init_cache (dec_history inp) = true ->
+  prop_history inp (run_history inp) = 0.
+Proof. exact model_passes_own_check. Qed.
+Print Assumptions c05_model_passes_own_check.
+
+Theorem c05_fits_model_passes : forall inp, prop_fits inp (run_fits inp) = 0.
+Proof. exact fits_model_passes. Qed.
+Print Assumptions c05_fits_model_passes.
+
+Theorem c05_owners_model_passes : forall inp, prop_owners inp (run_owners inp) = 0.
+Proof. exact owners_model_passes. Qed.
+Print Assumptions c05_owners_model_passes.
+
+(* ---- non-vacuity ---- *)
+
+Definition ex_spec (alloc : res) : rspec := mkSpec 1 1 1 false true 2 0 [] alloc [] false 0.
+Definition ex_hist : list hop :=
+  [ HRsvAdd (ex_spec [(1, 8); (4, 16)]);
+    HPodAssume 1 1 [(1, 2); (4, 3)];
+    HPodAdd (mkPev 2 [(1, 1)] 1 false 1 None);
+    HPodAdd (mkPev 3 [(1, 4)] 2 false 0 (Some (mkOpx true false 0 [] [] false 4)));
+    HRsvUpdate (ex_spec [(1, 8)]);
+    HPodDelete (mkPev 1 [(1, 2); (4, 3)] 1 false 1 None);
+    HPodDelete (mkPev 3 [(1, 4)] 2 false 0 (Some (mkOpx true false 0 [] [] false 4)));
+    HRsvRemove 1 1 ].
+
+Example ex_hist_hyps :
+  hist_nonneg ex_hist = true /\ hist_no_grow init_cache ex_hist = true
+  /\ forallb (fun f : bool * list (Z * Z) => fst f) (flags_of ex_hist) = true.
+Proof. vm_compute. auto. Qed.
+
+Example ex_hist_nontrivial :
+  existsb (fun v => existsb (fun i => negb (is_nil (v_assigned i))) (o_infos v))
+          (views_of ex_hist) = true.
+Proof. vm_compute. reflexivity. Qed.
+
+Example ex_fit_admits :
+  fits_reservation (mkInfo (ex_spec [(1, 8)]) [1] [(1, 1)] [(1, 4)] [] false) [(1, 3)] [] = [].
+Proof. vm_compute. reflexivity. Qed.
+Example ex_fit_rejects :
+  fits_reservation (mkInfo (ex_spec [(1, 8)]) [1] [(1, 1)] [(1, 4)] [] false) [(1, 4)] [] = [1].
+Proof. vm_compute. reflexivity. Qed.
+
+Example ex_owner_matches :
+  match_owners [mkClause None None (Some [mkLreq 1 0 [7]])] (mkOpod 1 1 1 0 [(1, 7)] []) = true.
+Proof. vm_compute. reflexivity. Qed.
